@@ -71,4 +71,14 @@ def check_engine(ctx, prop, collected, cmd, abstract_fn, model_name, accept_tags
         ctx.ties_broken.append(f"correspondence:composed model ({model_name}) refuses a transcript of the real client at event {idx} `{toks[idx]}`: {reason} [{len(rel)} transcripts; first: scenario seed {seed}]")
         ctx.notes.append({"trace_refusal": {"model": model_name, "scenario_seed": seed, "event_index": idx, "event": toks[idx], "reason": reason,
                                             "events_before": toks[max(0, idx - 40):idx + 1], "script": [l for l, _, _, _ in s.tr]}})
+        # a refusal by a guard that stands for a clause of the property (not a bookkeeping guard of the model) on a transcript of the real client is a
+        # concrete failing history: report it with the script as the replay
+        tagged = [r for r in rel if r[4].split()[0] != "model"]
+        if tagged and not getattr(ctx, "found_by_trace", False):
+            seed, s, toks, idx, reason = tagged[0]
+            ctx.violation("composed-model", {"what": f"{prop}: the real client (H-client) produced a history the composed model ({model_name}) refuses, at the guard `{reason}`",
+                                             "scenario_seed": seed, "event_index": idx, "event": toks[idx], "events_before": toks[max(0, idx - 60):idx + 1],
+                                             "script": [l for l, _, _, _ in s.tr], "events": [" | ".join(e)[:400] for _, e, _, _ in s.tr],
+                                             "replay_hint": "feed `script` line by line to .build/h/h_client/*; abstract with lib/trace_abs.py; `mdrv " + short + " <tokens>`"})
+            ctx.found_by_trace = True
     return rel
